@@ -51,6 +51,7 @@ type Stats struct {
 	WallS       float64        `json:"wall_s"`
 	TranscriptN int            `json:"transcript_numbers"`
 	Extra       map[string]interface{} `json:"extra,omitempty"`
+	Special     *hx.Special            `json:"special,omitempty"`
 }
 
 type GoFailure struct {
@@ -87,6 +88,7 @@ func main() {
 	seed := flag.Int64("seed", 1, "PRNG seed")
 	out := flag.String("out", "", "output directory")
 	replay := flag.String("replay", "", "replay file (JSON case) to run instead of generating")
+	noSpecial := flag.Bool("nospecial", false, "skip the Go-side special exploration of the property")
 	flag.Parse()
 	if *out == "" {
 		fmt.Fprintln(os.Stderr, "need -out")
@@ -117,6 +119,10 @@ func main() {
 		cases = []*hx.Case{rp.Case}
 	} else {
 		cases, rule = hx.PlanCases(*prop, *tier, *seed)
+	}
+	var special *hx.Special
+	if *replay == "" && !*noSpecial {
+		special = hx.RunSpecial(*prop, *tier, *seed, tmp)
 	}
 
 	fin, _ := os.Create(filepath.Join(*out, "cases.in"))
@@ -196,6 +202,7 @@ func main() {
 	if len(st.Samples) == 0 && len(cases) > 0 {
 		st.Samples = append(st.Samples, map[string]interface{}{"family": cases[0].Family, "tags": cases[0].Tags, "ops": len(cases[0].Ops)})
 	}
+	st.Special = special
 	st.WallS = time.Since(start).Seconds()
 	js, _ := json.MarshalIndent(st, "", " ")
 	os.WriteFile(filepath.Join(*out, "stats.json"), js, 0o644)
